@@ -896,3 +896,81 @@ Definition ex_dup2 := mkgattr [65]%N [66]%N [1] T_octets None None None None.
 Example order_matters_without_distinct_keys :
   gen (mkgopts [] []) (mkgdict [ex_dup1; ex_dup2] [] []) <> gen (mkgopts [] []) (mkgdict [ex_dup2; ex_dup1] [] []).
 Proof. vm_compute. discriminate. Qed.
+
+(* ---- named value constants: one per declared number, each taken from a VALUE line of the attribute ---- *)
+Lemma dedup_In l w : In w (dedup l) -> In w l.
+Proof.
+  revert w. induction l as [|v r IH]; intros w H; [destruct H|]. cbn [dedup] in H.
+  destruct (dedup r) as [|x r'] eqn:E.
+  - destruct H as [<-|[]]. left. reflexivity.
+  - destruct (gl_num v =? gl_num x).
+    + right. apply IH. exact H.
+    + destruct H as [<-|H]; [left; reflexivity|right; apply IH; exact H].
+Qed.
+Lemma dedup_covers l v : In v l -> exists w, In w (dedup l) /\ gl_num w = gl_num v.
+Proof.
+  induction l as [|u r IH]; intros H; [destruct H|]. cbn [dedup].
+  destruct (dedup r) as [|x r'] eqn:E.
+  - destruct H as [<-|H]; [exists u; split; [left; reflexivity|reflexivity]|].
+    destruct (IH H) as (w & [] & _).
+  - destruct (gl_num u =? gl_num x) eqn:En.
+    + destruct H as [<-|H]; [exists x; split; [left; reflexivity|lia]|]. exact (IH H).
+    + destruct H as [<-|H]; [exists u; split; [left; reflexivity|reflexivity]|].
+      destruct (IH H) as (w & Hw & Hn). exists w. split; [right; exact Hw|exact Hn].
+Qed.
+
+(* numbers do not decrease along the list *)
+Inductive ascending : list gvalue -> Prop :=
+| asc_nil : ascending []
+| asc_cons v l : Forall (fun w => gl_num v <= gl_num w) l -> ascending l -> ascending (v :: l).
+
+Lemma sorted_ascending l : sorted value_lt l -> ascending l.
+Proof.
+  induction 1 as [|x l Hx _ IH]; constructor; [|exact IH].
+  eapply Forall_impl; [|exact Hx]. cbv beta. intros w Hw. unfold value_lt in Hw.
+  destruct (gl_num w =? gl_num x) eqn:E; cbn [negb] in Hw; lia.
+Qed.
+Lemma ascending_filter f l : ascending l -> ascending (filter f l).
+Proof.
+  induction 1 as [|v l Hv _ IH]; cbn [filter]; [constructor|].
+  destruct (f v); [|exact IH]. constructor; [|exact IH].
+  apply Forall_forall. intros w Hw. apply filter_In in Hw. rewrite Forall_forall in Hv. apply Hv, Hw.
+Qed.
+Lemma dedup_strict l : ascending l ->
+  ascending (dedup l) /\ NoDup (map gl_num (dedup l)) /\ (forall w, In w (dedup l) -> forall v, In v l -> gl_num v = gl_num w \/ True).
+Proof.
+  intros Ha. split; [|split; [|auto]].
+  - induction Ha as [|v l Hv _ IH]; [constructor|]. cbn [dedup].
+    destruct (dedup l) as [|x r'] eqn:E; [constructor; constructor|].
+    destruct (gl_num v =? gl_num x); [exact IH|]. constructor; [|exact IH].
+    apply Forall_forall. intros w Hw. rewrite Forall_forall in Hv. apply Hv. apply dedup_In. rewrite E. exact Hw.
+  - induction Ha as [|v l Hv Hal IH]; [constructor|]. cbn [dedup].
+    destruct (dedup l) as [|x r'] eqn:E; [cbn; constructor; [intros []|constructor]|].
+    destruct (gl_num v =? gl_num x) eqn:En; [exact IH|].
+    cbn [map]. constructor; [|exact IH].
+    (* every number further on is >= the head of the deduplicated tail, which is > v's *)
+    assert (Hasc : ascending (x :: r')).
+    { rewrite <- E. clear -Hal. induction Hal as [|u l Hu _ IHl]; [constructor|]. cbn [dedup].
+      destruct (dedup l) as [|y r''] eqn:E'; [constructor; constructor|].
+      destruct (gl_num u =? gl_num y); [exact IHl|]. constructor; [|exact IHl].
+      apply Forall_forall. intros w Hw. rewrite Forall_forall in Hu. apply Hu. apply dedup_In. rewrite E'. exact Hw. }
+    inversion Hasc as [|? ? Hx _]; subst. rewrite Forall_forall in Hv, Hx.
+    assert (Hvx : gl_num v <= gl_num x) by (apply Hv, dedup_In; rewrite E; left; reflexivity).
+    intros Hin. cbn [map] in Hin. destruct Hin as [Hin|Hin]; [lia|].
+    apply in_map_iff in Hin. destruct Hin as (w & Hw & Hin). specialize (Hx w Hin). lia.
+Qed.
+
+Theorem value_constants a vals :
+  let vs := values_of_attr a (sort value_lt vals) in
+  (forall w, In w vs -> In w vals /\ gl_attr w = ga_name a) /\
+  (forall v, In v vals -> gl_attr v = ga_name a -> exists w, In w vs /\ gl_num w = gl_num v) /\
+  NoDup (map gl_num vs).
+Proof.
+  cbv zeta. unfold values_of_attr. split; [|split].
+  - intros w Hw. apply dedup_In in Hw. apply filter_In in Hw. destruct Hw as [Hw Hb]. apply beq_spec in Hb.
+    split; [exact (proj1 (sort_In _ _ _) Hw)|exact Hb].
+  - intros v Hv Ha. apply dedup_covers. apply filter_In. split; [exact (proj2 (sort_In _ _ _) Hv)|rewrite Ha; apply beq_refl].
+  - apply dedup_strict. apply ascending_filter, sorted_ascending, sort_sorted.
+    + apply value_lt_asym.
+    + intros x y z H1 H2. eapply value_lt_trans; eassumption.
+Qed.
